@@ -64,8 +64,12 @@ def replay(ctx, path):
         print("replay: raises", repr(ex))
         return 1
     print("replay:", rp["key"])
-    print(" n       :", list(res.mesh.n), "pmin", res.mesh.region.pmin, "pmax", res.mesh.region.pmax)
+    print(" n       :", [int(x) for x in res.mesh.n], "pmin", res.mesh.region.pmin, "pmax", res.mesh.region.pmax)
     print(" values  :", padopt.fld.flatten(res.array).tolist())
     print(" validity:", padopt.fld.flatten_mask(res.valid).astype(int).tolist())
-    print(" recorded:", json.dumps(w.get("detail", w.get("exc")))[:2000])
-    return 1
+    if "expected" not in w:
+        print(" recorded:", json.dumps(w.get("detail", w.get("exc")))[:2000])
+        return 1
+    bad = padopt.compare(res, w["expected"], m, emb, nv, w["dtype"] == "int")
+    print(" ->", f"{bad[0]}: {padopt.WHAT[bad[0]]} {core.jsonable(bad[1])}" if bad else "agrees with the specification's result")
+    return 1 if bad else 0
